@@ -8,6 +8,10 @@ trap 'rm -rf "$OUT"' EXIT
 cd "$REPO" || exit 2
 PYTHONPATH="$REPO" /venv/bin/python -m pytest -ra -q -p no:cacheprovider --timeout=900 \
    --continue-on-collection-errors ${BASELINE_XDIST:+-n $BASELINE_XDIST} --junitxml="$OUT/j.xml" > "$OUT/log" 2>&1
+# the suite's monitor test leaves an orphaned `python -m tdgl.visualize ... monitor` process spinning at 100% CPU: remove ours
+for pid in $(pgrep -f "tdgl[.]visualize.*monitor"); do
+  if [ "$(readlink -f /proc/$pid/cwd 2>/dev/null)" = "$(readlink -f "$REPO")" ]; then kill "$pid" 2>/dev/null; fi
+done
 tail -2 "$OUT/log"
 /venv/bin/python - "$OUT/j.xml" <<'PY'
 import json, sys, xml.etree.ElementTree as ET
